@@ -487,7 +487,10 @@ static void parse_opt(assemblyline_t al, int argc, char **argv,
     case 'r':
       r->get_ret |= RUN;
       // if there is a optional numerical argument > 0, set the arg len
-      if (optarg != NULL && (temp = atoi(optarg) > 0))
+      // (-r=LEN hands "=LEN" to us, --return=LEN and -rLEN hand "LEN")
+      if (optarg != NULL && *optarg == '=')
+        optarg++;
+      if (optarg != NULL && (temp = atoi(optarg)) > 0)
         r->arglen = temp;
       break;
     case 'p':
